@@ -93,6 +93,11 @@ CHECKS = {
     category='exploration', design='4/C15',
     text="~170 generated expressions x up to 6 target spin strings x expand_eri on/off (about 1200 integrations per quick run), restricted reference checked in a model whose alpha and beta tensors coincide (about 500 per run), expression-level allowed_spin_blocks (every unreported block must be zero), registered intermediates and the MP2 energy / density pipelines.",
     note="Trusted: TM evaluator with spin-labelled domains. Every term holds >= 1 object of known spin structure; explicit orbital-energy denominators are passed as symbolic denominators (the library's simplify refuses polynoms)."),
+ 'C12': dict(
+    technique="runtime monitor: reference-model oracle per registered intermediate - explicit RSPT amplitudes and one-particle density series (determinant space), residuals derived by the library's own RE ground state on random amplitudes, independently written einsum contractions; axis-transposition check of declared symmetries and forbidden-spin-block check on a spin-structured model",
+    category='exploration', design='4/C12',
+    text="all 25 registered intermediates x {fully, once} expanded x default and renamed index tuples (names colliding with the definitions' internal names, numbered names) on (2,2)-(3,3) models (t4_2 on (4,4) in the thorough tier): ~140 definition checks, ~630 declared symmetries and ~370 forbidden spin blocks per quick run.",
+    note="Trusted: vlib/fock.py RSPT and density series; the einsum transcriptions of t2eri_1..7, A, B, t2sq."),
 }
 
 NOT_YET = {}
